@@ -17,6 +17,23 @@ import (
 
 func init() { register("C16", checkC16) }
 
+// userJSONMatcher / userYAMLMatcher: matchers implemented outside the library.
+type userJSONMatcher struct{ inner match.JSONMatcher }
+
+func (u userJSONMatcher) JSON(b []byte) ([]byte, []match.MatcherError) {
+	out, errs := u.inner.JSON(b)
+	all := []match.MatcherError{}
+	return out, append(all, errs...)
+}
+
+type userYAMLMatcher struct{ inner match.YAMLMatcher }
+
+func (u userYAMLMatcher) YAML(b []byte) ([]byte, []match.MatcherError) {
+	out, errs := u.inner.YAML(b)
+	all := []match.MatcherError{}
+	return out, append(all, errs...)
+}
+
 func prefixRelated(a, b vkit.JPath) bool {
 	n := len(a.Steps)
 	if len(b.Steps) < n {
@@ -252,6 +269,19 @@ func runC16(c *vkit.Ctx, r *rand.Rand, i int) {
 		m := match.Any(anyPaths...).Placeholder(pick2[any](r, "<grouped>", "<gröuped>", "g \"q\" \\", 7)).ErrOnMissingPath(!lenient)
 		jms = append(jms, m)
 		yms = append(yms, m)
+	}
+	if i%6 == 2 {
+		// matchers written by the user (the two interfaces are exported): each wraps a library
+		// matcher and reports "no errors" as an empty, non-nil slice - the library's own idiom
+		// `errs := []match.MatcherError{}`
+		for k := range jms {
+			jms[k] = userJSONMatcher{jms[k]}
+		}
+		for k := range yms {
+			yms[k] = userYAMLMatcher{yms[k]}
+		}
+		in["user_written_matchers"] = true
+		c.Count("cases_with_user_written_matchers", 1)
 	}
 	in["matchers_reused"], in["lenient"], in["grouped_any_paths"] = true, lenient, anyPaths
 	callTo := func(file, doc string, upd *bool) (string, vkit.Signals) {
